@@ -161,7 +161,7 @@ def gen_args(rng, m, quick):
             cases += [(rng.randint(0, min(doms[0][1], 1 << rng.randint(1, 63))),) for _ in range(150 if quick else 1500)]
     else:
         # pairs / triples of interesting values (sampled), small values exhaustively if a small box is given
-        n = 400 if quick else 4000
+        n = 300 if quick else 4000
         for _ in range(n):
             cases.append(tuple(rng.choice(p) for p in per))
         for _ in range(n):
@@ -202,6 +202,36 @@ def broken_tie_theorems(chk):
         if item not in out:
             out.append(item)
     return out
+
+
+def negative_selftest(chk):
+    """the translator must refuse every function of harness/leaf_selftest_neg.cc (one construct outside the subset each)"""
+    import translate_leaf as tl
+    neg = os.path.join(tl.HERE, "leaf_selftest_neg.cc")
+    names = re.findall(r"^int (neg_\w+)\(.*\{", open(neg).read(), re.M)
+    saved = list(tl.TARGETS)
+    refused, accepted = {}, []
+    try:
+        targets = [tl.T(neg, "neg_", "func", nm, nm, "selftest-neg") for nm in names]
+        tl.TARGETS.extend(targets)
+        tr = tl.Translator()
+        try:
+            tr.load()
+        except tl.Unsupported as e:
+            raise common.InfraError("leaf-translation: clang could not read the translator's targets", str(e)[-1500:])
+        for t in targets:
+            try:
+                tr.translate_target(t)
+                accepted.append({"function": t["sym"], "emitted": tr.emitted.get(t["out"])})
+            except tl.Unsupported as e:
+                refused[t["sym"]] = str(e).split("): ", 1)[-1][:160]
+    finally:
+        tl.TARGETS[:] = saved
+    if accepted or len(refused) < 15:
+        chk.violation({"kind": "correspondence-broken", "correspondence": "corr:C02:leaf-translation",
+                       "why": "the translator accepted a construct outside its subset instead of refusing it (or the negative self-test lost its functions)",
+                       "accepted": accepted, "refused": len(refused)}, no_input=True)
+    return refused
 
 
 def run_part(chk):
@@ -290,6 +320,7 @@ def run_part(chk):
     chk.count("leaf-translation", len(allcases), keys,
               samples=[{"function": n, "arguments": list(c), "result": a} for (n, c), a in list(zip(allcases, impl))[:2]])
     chk.cov["parts"]["leaf-translation"]["functions"] = per
+    chk.cov["parts"]["leaf-translation"]["refused_constructs"] = negative_selftest(chk)
     chk.cov["parts"]["leaf-translation"]["tables_and_constants"] = sorted(k for k, v in meta.items() if v["kind"] != "func")
     chk.cov["parts"]["leaf-translation"]["rule"] = (
         "every function translated by harness/translate_leaf.py: its source text compiled by g++ against Eval vm_compute of the generated "
